@@ -103,4 +103,4 @@ for ns in list(range(1, 33)) + [63, 64, 65, 127, 128, 129, 255, 256, 257, 451, 5
 
 for kind, kname in ((1, 'free_memory_list'), (2, 'ordered_free_memory_list')):
     add('c18-%s-minblock' % kname, ['C18'], 'freelist', 'c18_minblock.c', config='release', defines=['KIND=%d' % kind, 'HEAP_SIZE=64'],
-        unwind=4, timeout=300, desc='%s: min_block_size/usable_size/node_size arithmetic' % kname, bounds='all node sizes 1..512, all n 1..2000 (symbolic)')
+        unwind=4, timeout=300, solver='cvc5', desc='%s: min_block_size/usable_size/node_size arithmetic (cvc5, integer encoding of bit-vectors)' % kname, bounds='all node sizes 1..512, all n 1..2000 (symbolic)')
